@@ -75,18 +75,27 @@ def sh(cmd, cwd=None, env=None, timeout=None, stdin=None):
 # ---------------------------------------------------------------------------------------------
 # builds
 
+def cargo_build(crate):
+    """Build one harness crate.  A build that fails for a reason other than the sources (an interrupted earlier
+    build can leave the incremental cache in a state the linker rejects) is retried once from a clean cache."""
+    rc, out = sh(["cargo", "build", "--offline", "-q"], cwd=os.path.join(VERIF, "harness", crate))
+    if rc != 0 and ("linking with" in out or "incremental" in out or "undefined hidden symbol" in out or "failed to open" in out):
+        shutil.rmtree(os.path.join(TARGET, "debug", "incremental"), ignore_errors=True)
+        rc, out = sh(["cargo", "build", "--offline", "-q"], cwd=os.path.join(VERIF, "harness", crate), env=dict(ENV, CARGO_INCREMENTAL="0"))
+    return rc, out
+
 def build_harness(need_nofast, need_o0=False):
     with Lock("cargo.lock"):
         t = time.time()
         if need_o0:
-            rc, out = sh(["cargo", "build", "--offline", "-q"], cwd=os.path.join(VERIF, "harness", "o0"))
+            rc, out = cargo_build("o0")
             if rc != 0:
                 return False, "harness (unoptimised build) does not build against /repo:\n" + out[-3000:]
-        rc, out = sh(["cargo", "build", "--offline", "-q"], cwd=os.path.join(VERIF, "harness", "fast"))
+        rc, out = cargo_build("fast")
         if rc != 0:
             return False, "harness (default features) does not build against /repo:\n" + out[-3000:]
         if need_nofast:
-            rc, out = sh(["cargo", "build", "--offline", "-q"], cwd=os.path.join(VERIF, "harness", "nofast"))
+            rc, out = cargo_build("nofast")
             if rc != 0:
                 return False, "harness (no default features) does not build against /repo:\n" + out[-3000:]
         return True, "%.1fs" % (time.time() - t)
